@@ -375,7 +375,10 @@ func (c *Ctx) globalObj(st *State, g *ssa.Global) *Object {
 	et := g.Type().(*types.Pointer).Elem()
 	o := c.newObject("global."+g.Name(), et)
 	var v Value
-	if init := c.Eng.globalInit(g); init != nil {
+	if init := c.Eng.globalInit(g); init != nil && init.expr == nil {
+		v = c.zeroValue(st, et)
+		c.Assumed["package variable "+g.Pkg.Pkg.Name()+"."+g.Name()+" holds its initial (zero) value"] = true
+	} else if init != nil {
 		v = c.evalLit(st, init.expr, init.info, et)
 		c.Assumed["package variable "+g.Pkg.Pkg.Name()+"."+g.Name()+" holds its initial (literal) value"] = true
 	} else {
@@ -410,6 +413,9 @@ func (e *Engine) globalInit(g *ssa.Global) *globalInitInfo {
 			for _, s := range gd.Specs {
 				vs := s.(*ast.ValueSpec)
 				for i, n := range vs.Names {
+					if p.TypesInfo.Defs[n] == obj && len(vs.Values) == 0 {
+						return &globalInitInfo{nil, p.TypesInfo}
+					}
 					if p.TypesInfo.Defs[n] == obj && i < len(vs.Values) && len(vs.Values) == len(vs.Names) {
 						switch vs.Values[i].(type) {
 						case *ast.CompositeLit, *ast.BasicLit:
